@@ -9,12 +9,12 @@ open OdxVerif.OdxM
 /-- **Encoding.** Whenever `Request.encode` / `Response.encode` succeeds in strict mode, the lenient run
     returns the identical PDU (and the identical overlap-warning count) — for every description the model
     covers, every value assignment, every triggering request. -/
-theorem C17_same_result_encode (ps : List Param) (v : PVal) (trig : Option Bytes) (r : Bytes × Nat)
-    (h : encodeMessage ps v trig true = .ok r) : encodeMessage ps v trig false = .ok r := by
+theorem C17_same_result_encode (bs : Option Nat) (ps : List Param) (v : PVal) (trig : Option Bytes) (r : Bytes × Nat)
+    (h : encodeMessage bs ps v trig true = .ok r) : encodeMessage bs ps v trig false = .ok r := by
   unfold encodeMessage at h ⊢
-  have hs := (sim_encode_all modelFuel).2.2.2.2.2.2 ps v
+  have hs := (sim_encode_all modelFuel).1 (.struct bs ps) v
   unfold Sim at hs
-  cases hm : encodeComposite modelFuel ps v { trig := trig, isEndOfPdu := true } true with
+  cases hm : encodeDop modelFuel (.struct bs ps) v { trig := trig, isEndOfPdu := true } true with
   | error e => rw [hm] at h; cases h
   | ok p =>
     rw [hm] at h
@@ -23,12 +23,12 @@ theorem C17_same_result_encode (ps : List Param) (v : PVal) (trig : Option Bytes
 
 /-- **Decoding**, for descriptions without a DYNAMIC-ENDMARKER-FIELD (whose `try … except DecodeError`
     around the end-marker DOP is the one catch site inside the decoder; see `C17_endmarker_partial`). -/
-theorem C17_same_result_decode (ps : List Param) (hmf : paramsMarkerFree ps = true) (msg : Bytes) (r : PVal × Nat)
-    (h : decodeMessage ps msg true = .ok r) : decodeMessage ps msg false = .ok r := by
+theorem C17_same_result_decode (bs : Option Nat) (ps : List Param) (hmf : paramsMarkerFree ps = true) (msg : Bytes)
+    (r : PVal × Nat) (h : decodeMessage bs ps msg true = .ok r) : decodeMessage bs ps msg false = .ok r := by
   unfold decodeMessage at h ⊢
-  have hs := (sim_decode_all modelFuel).2.2.2.2.2.2 ps hmf
+  have hs := (sim_decode_all modelFuel).1 (.struct bs ps) (by simpa [Dop.markerFree] using hmf)
   unfold Sim at hs
-  cases hm : decodeComposite modelFuel ps { msg := msg } true with
+  cases hm : decodeDop modelFuel (.struct bs ps) { msg := msg } true with
   | error e => rw [hm] at h; cases h
   | ok p =>
     rw [hm] at h
@@ -54,11 +54,11 @@ theorem C17_switch_immediate {σ : Type} (e : Err) (s : σ) :
   ⟨rfl, rfl⟩
 
 /-! non-vacuity: a strict success exists, and a strict failure that lenient mode turns into a result -/
-example : (encodeMessage [.mk "x" none none (.value (.simple (.std .uint32 none true 8 none false) .uint32 .identical) none)]
+example : (encodeMessage none [.mk "x" none none (.value (.simple (.std .uint32 none true 8 none false) .uint32 .identical) none)]
     (.dict [("x", .atom (.int 7))]) none true).toOption = some ([7], 0) := by decide
-example : (encodeMessage [.mk "x" none none (.value (.simple (.std .uint32 none true 8 none false) .uint32 .identical) none)]
+example : (encodeMessage none [.mk "x" none none (.value (.simple (.std .uint32 none true 8 none false) .uint32 .identical) none)]
     (.dict [("x", .atom (.int 300))]) none true).toOption = none ∧
-  (encodeMessage [.mk "x" none none (.value (.simple (.std .uint32 none true 8 none false) .uint32 .identical) none)]
+  (encodeMessage none [.mk "x" none none (.value (.simple (.std .uint32 none true 8 none false) .uint32 .identical) none)]
     (.dict [("x", .atom (.int 300))]) none false).toOption = some ([44], 0) := by decide
 
 end OdxVerif.Codec
